@@ -1,6 +1,56 @@
-import RucteModel
+import RucteProofs.ExecSpec
 
-/-! # C04 — placeholder: theorems are added as they are proved. -/
+/-!
+# C04 — template calls and block (Content) arguments compose
+-/
 namespace Ructe.C04
-theorem placeholder : True := trivial
+open Nom
+open Esc (Sink IoRes)
+
+/-- `@:callee(args…)` renders, at that position, exactly what the callee renders for those arguments -/
+theorem render_call (sem : Sem) (prog : Prog) (n : Nat) (f : Bytes) (args : List RArg) (env : Env) (fn : RFn)
+    (henv : env.get f = none) (hp : prog.get f = some fn) :
+    renderS sem prog (n + 1) (.call f args) env =
+      renderL sem prog n fn.body (bindParams fn.params (args.map (argVal sem env))) := by
+  simp [renderS, henv, hp]
+
+/-- a block argument denotes a closure over the **caller's** variables -/
+theorem block_captures_caller (sem : Sem) (env : Env) (body : List RS) :
+    argVal sem env (.closure body) = .closure body env := by
+  rfl
+
+/-- an empty block is `|_| Ok(())`, a non-empty one (even comment-only) a real closure -/
+theorem lower_block (x : TExpr) (r : List TExpr) :
+    lowerArg (.body []) = .noop ∧ lowerArg (.body (x :: r)) = .closure (lowerList (x :: r)) := by
+  constructor <;> simp [lowerArg]
+
+/-- `@:p()` for a Content parameter `p` renders the block — with the caller's variables — at the
+place the callee invokes it -/
+theorem render_content_param (sem : Sem) (prog : Prog) (n : Nat) (p : Bytes) (args : List RArg) (env cenv : Env) (body : List RS)
+    (h : env.get p = some (.closure body cenv)) :
+    renderS sem prog (n + 1) (.call p args) env = renderL sem prog n body cenv := by
+  simp [renderS, h]
+
+theorem render_noop_param (sem : Sem) (prog : Prog) (n : Nat) (p : Bytes) (args : List RArg) (env : Env)
+    (h : env.get p = some .noop) :
+    renderS sem prog (n + 1) (.call p args) env = some [] := by
+  simp [renderS, h]
+
+/-- binding: the callee sees its declared parameters, in declared order -/
+theorem bindParams_get (p : Bytes) (ps : List Bytes) (v : Val) (vs : List Val) :
+    (bindParams (p :: ps) (v :: vs)).get p = some v := by
+  simp [bindParams, Env.get]
+
+/-- **through an intermediate template**: a callee that forwards its block as `{@:body()}` to an inner
+template makes the inner invocation render the original block -/
+theorem compose_chain (sem : Sem) (prog : Prog) (n : Nat) (bodyName : Bytes) (env cenv : Env) (b : List RS) (out : Bytes)
+    (h : env.get bodyName = some (.closure b cenv))
+    (hr : renderL sem prog n b cenv = some out) :
+    -- the forwarding block `{@:body()}` as the intermediate passes it on …
+    argVal sem env (.closure [.call bodyName []]) = .closure [.call bodyName []] env ∧
+    -- … and what invoking it renders: the original block
+    renderL sem prog (n + 2) [.call bodyName []] env = some out := by
+  refine ⟨rfl, ?_⟩
+  simp [renderL, renderS, h, hr]
+
 end Ructe.C04
